@@ -123,6 +123,16 @@ pub fn check_state(ex: &Exec, check_c: bool, stats: &mut HashMap<String, u64>) -
     for (mi, m) in ex.models.iter().enumerate() {
         let files: Vec<ArxmlFile> = m.files().collect();
         let fileset: HashSet<WeakArxmlFile> = files.iter().map(|f| f.downgrade()).collect();
+        // FilesOwned / NamesUnique (Tree/Files.v): every file of the model refers to the model, names are pairwise different
+        let mut names: HashSet<String> = HashSet::new();
+        for f in &files {
+            if f.model().ok().as_ref() != Some(m) {
+                return fail("file-not-owned", format!("model {} lists file {} whose model() is another model", mi, f.filename().display()));
+            }
+            if !names.insert(f.filename().display().to_string()) {
+                return fail("duplicate-file-name", format!("model {} has two files named {}", mi, f.filename().display()));
+            }
+        }
         let all = model_elements(m);
         *stats.entry("checked_elements".into()).or_insert(0) += all.len() as u64;
         // effective membership of every element of the model
